@@ -107,9 +107,15 @@ class Program(object):
             statement.translate()
 
         while not self.all_sizes_fixed():
+            progress = False
             for index, statement in enumerate(self.statements):
                 if not statement.fixed_size:
                     statement.determine_pcr_relative_sizes(self.statements, index)
+                    progress = progress or statement.fixed_size
+            if not progress:
+                # Every undecided span straddles the 8-bit limit: the 16-bit form can always hold the offset
+                index = next(i for i, statement in enumerate(self.statements) if not statement.fixed_size)
+                self.statements[index].determine_pcr_relative_sizes(self.statements, index, force_16_bit=True)
 
         address = 0
         for index, statement in enumerate(self.statements):
